@@ -138,6 +138,23 @@ def gen_config_case(seed, idx):
             axes={"wght": ("Weight “w”", 400)})
         expected_masters = [["thin", "Thin", [["wght", 100]]], ["reg", "Regular", [["wght", 400]]], ["bold", "Bold Ünï", [["wght", 900.5]]]]
         expected_axes = [["wght", "Weight “w”", 400]]
+        if r.random() < 0.5:
+            # two axes, declared in NON-alphabetical tag order; every non-default master moves along one axis only
+            ops = [op for op in ops if not op["path"].startswith("thin/")]
+            for n in names:
+                ops.append({"op": "write", "path": "narrow/%s" % n, "content": "corpus:vf/thin61.svg"})
+            from collections import OrderedDict
+
+            toml = gen.toml_config(
+                file_o, None,
+                masters=OrderedDict([("reg", {"style_name": "Regular", "srcs": ["reg/*.svg"], "position": OrderedDict([("wght", 400), ("wdth", 100)])}),
+                                     ("bold", {"style_name": "Bold Ünï", "srcs": ["bold/*.svg"], "position": OrderedDict([("wght", 900.5), ("wdth", 100)])}),
+                                     ("narrow", {"style_name": "Narrow", "srcs": ["narrow/*.svg"], "position": OrderedDict([("wdth", 62.5), ("wght", 400)])})]),
+                axes=OrderedDict([("wght", ("Weight “w”", 400)), ("wdth", ("Width", 100))]))
+            # positions are stored sorted by tag (AxisPosition tuples); axes keep their declaration order
+            expected_masters = [["reg", "Regular", [["wdth", 100], ["wght", 400]]], ["bold", "Bold Ünï", [["wdth", 100], ["wght", 900.5]]],
+                                ["narrow", "Narrow", [["wdth", 62.5], ["wght", 400]]]]
+            expected_axes = [["wght", "Weight “w”", 400], ["wdth", "Width", 100]]
     else:
         srcs = {"src/emoji_u41.svg": "corpus:rect.svg", "src/emoji_u1f600_200d_1f601.svg": "corpus:reused_shape.svg"}
         for p, c in sorted(srcs.items()):
@@ -293,6 +310,8 @@ CFG_SKIP = {"fea_file", "masters", "source_names", "axes"}
 def _cmp_cfg(sent, got, bdir_abs):
     """field-for-field comparison of a written config and its reloaded form"""
     diffs = []
+    if "observer_error" in sent or "observer_error" in got:
+        return [("(config could not be read back by the observer)", sent.get("observer_error"), got.get("observer_error"))]
     for k in sent:
         if k in CFG_SKIP:
             continue
@@ -401,13 +420,13 @@ def monitors(inv, meta, root_hint=None):
     sent_parts = {}
     for t in trace:
         if t["k"] == "parts.to_json" and t["proc"] in steps:
-            sent_parts.setdefault(t["proc"], []).append(t["parts"]["sha"])
+            sent_parts.setdefault(t["proc"], []).append(t["parts"].get("sha"))
     for t in trace:
         if t["k"] == "parts.load" and bdir_abs:
             rel = os.path.relpath(t["file"], bdir_abs)
             if rel in sent_parts:
                 counts["parts"] += 1
-                if t["parts"]["sha"] not in sent_parts[rel]:
+                if t["parts"].get("sha") is None or t["parts"].get("sha") not in sent_parts[rel]:
                     out.append({"class": "handoff-mismatch", "detail": {"what": "reusable parts changed between writer and reader", "step": steps[t["proc"]]["rule"] if t["proc"] in steps else t["proc"], "file": rel}})
     # resolution: flag > file > default, as seen by the driver
     exp = (meta.get("expected_by_label") or {}).get(inv.get("label")) or meta.get("expected") or {}
